@@ -363,3 +363,21 @@ PROPS["C13"] = dict(
                  "NSGA-II/III elite selection", "PercentilePruner percentile mirroring (100 - q) and np.nanpercentile",
                  "WilcoxonPruner", "Study.best_trial constraint fallback", "RDB/journal/cached get_best_trial"],
 )
+
+PROPS["C17"] = dict(
+    modules=["contracts.search_space"],
+    claim="_calculate (the incremental intersection scan) is proved, for all trial lists sorted by number, all cursors and "
+          "all cached search spaces satisfying the ghost invariant (`accounted` = the finished trials already intersected: "
+          "includes every finished trial of interest below the cursor; nothing below the cursor is WAITING/RUNNING), to "
+          "return exactly the from-scratch intersection over ALL finished trials of interest of the current list (soundness: "
+          "every entry occurs with an equal distribution in each of them; completeness: a missing name is missing from, or "
+          "disputed between, two of them; None iff there is none), a cursor that never skips a trial that may still finish, "
+          "and a search space that never grows; the returned pair re-establishes the invariant for the next call.",
+    note="history assumption: finished trials never change and trial numbers are stable (C01/C02/C20); distribution equality "
+         "is an abstract equivalence relation",
+    assumptions=LIB_ASSUMPTIONS + ["BaseDistribution.__eq__ is an equivalence relation (uninterpreted)",
+                                   "Study.get_trials returns the trials sorted by number (C01)",
+                                   "finished trials are immutable between calls (C02/C20): the ghost set `accounted` of the "
+                                   "previous call is still a set of finished trials with unchanged distributions"],
+    not_covered=["IntersectionSearchSpace.calculate wrapper (study-id check, sorting, deepcopy)"],
+)
